@@ -33,7 +33,7 @@ CHECKS = {
         "coercion kernel coerce(cls, data) is also driven as a unit for every primitive cls and data kind.",
         note="Under coerce=True str / float leaves come from finite pools and ints range over [-99, 99] ([-999, 999] "
         "thorough) because int(str), str(int), str(float) and dict lookups realise; this part is enumeration by forks. "
-        "Exotic kinds are concrete representatives. User converters/validators that raise are outside the statement.",
+        "Exotic kinds are concrete representatives. User converters/validators that raise are outside the statement. Non-string data keys: 1, None, tuple pairs that cannot be ordered, bytes; `loc` elements must be JSON-serialisable.",
         design="4/C03",
     ),
     "C04": dict(
@@ -183,7 +183,7 @@ CHECKS = {
         "serialize(U, g(v)).",
         note="Schemas of T vs S / U and the locality rule (a dynamic conversion does not reach the fields of nested "
         "objects) are concrete side conditions per scenario. Standard-library converters are covered by C05 / C03 "
-        "std variants on concrete pools.",
+        "std variants on concrete pools. Scenarios include the public helpers as_str, as_names, object_deserialization, object_serialization, sub_conversion (also two conversions differing by it in one process), lazy registration, nested type variables.",
         design="4/C12",
     ),
     "C09": dict(
@@ -197,7 +197,7 @@ CHECKS = {
         "without intermediate observation, observe. Results must be equal for all data within bounds.",
         note="Histories are enumerated by forks (quick: observe/op/observe for every op and observation kind, a second op for "
         "two kinds; thorough: length 2 everywhere); the solver decides equivalence of the warm and cold compiled methods "
-        "on the data. Compilation runs concretely (NoTracing). A fresh-interpreter replay is used for violations.",
+        "on the data. Compilation runs concretely (NoTracing). A fresh-interpreter replay is used for violations. Earlier uses with another per-call option (default_conversion) than the final observation are part of the histories (Nd jobs).",
         design="4/C09",
     ),
     "C19": dict(
@@ -212,7 +212,7 @@ CHECKS = {
         "nullability, interfaces (through intermediate classes) and argument types equal the reference mapping; small "
         "schemas built and queried concretely (`build` cases: unhashable / object defaults, GraphQLResolveInfo position, "
         "none_as_undefined, nested flatten, flattened class also used plain, recursion through a resolver). "
-        "Subscriptions, async resolvers, relay helpers and id_types are outside (event loop / not built).",
+        "Subscriptions, async resolvers and relay helpers are outside (event loop / not built). Build cases include ID types and id_encoding on variables and on literals of the query text.",
         design="4/C19",
     ),
     "C20": dict(
